@@ -62,13 +62,19 @@ Section Build.
   Variable resolve : opts -> modid -> opts.
   (* semantic analysis + type checking + Errors.file_messages/render_messages of one module: its interface
      and its rendered error tuples.  Abstract. *)
-  Variable analyze : src -> list iface -> opts -> iface * list etuple.
+  (* last argument: the import options of the module's suppressed dependencies, as recorded by suppressed_deps_opts
+     (the analysis sees OTHER modules' options only through it and through the dependency interfaces) *)
+  Variable analyze : src -> list iface -> opts -> list value -> iface * list etuple.
   Variable key_np : list name.      (* OPTIONS_AFFECTING_CACHE_NO_PLATFORM *)
   Variable dir_names : list name.   (* options selecting the cache location *)
   (* Errors.format_messages on the tuples of one module, reading the GLOBAL options *)
   Variable fmt : opts -> list etuple -> list string.
+  (* State.suppressed_deps_opts(): for the module with source s, the (name, dep_import_options, reason) records of its
+     suppressed dependencies whose import priority is covered (see ImportOpts.v), flattened to text.  It is computed
+     from the CURRENT options on every run (manager.import_options) and compared by State.is_fresh. *)
+  Variable imp : opts -> src -> list value.
 
-  Record entry := { e_src : src; e_deps : list iface; e_snap : snapshot; e_res : iface * list etuple }.
+  Record entry := { e_src : src; e_deps : list iface; e_snap : snapshot; e_imp : list value; e_res : iface * list etuple }.
   Definition ckey := (list value * modid)%type.
   Definition cache := list (ckey * entry).
 
@@ -86,8 +92,10 @@ Section Build.
      cache, interfaces of the modules processed so far, per-module tuples, number of modules re-analysed *)
   Record st := { st_cache : cache; st_ifaces : list iface; st_out : list (modid * list etuple); st_n : nat }.
 
+  (* find_cache_meta (snapshot) + validate_meta (source) + is_fresh (dependencies, suppressed_deps_opts) *)
   Definition reusable (o : opts) (e : entry) (s : src) (ifs : list iface) (snap : snapshot) : bool :=
-    src_eqb (e_src e) s && list_eqb iface_eqb (e_deps e) ifs && snap_match (is_lax o) (e_snap e) snap.
+    src_eqb (e_src e) s && list_eqb iface_eqb (e_deps e) ifs && snap_match (is_lax o) (e_snap e) snap
+    && list_eqb String.eqb (e_imp e) (imp o s).
 
   Definition step (o : opts) (acc : st) (ms : modid * src) : st :=
     let '(m, s) := ms in
@@ -96,8 +104,8 @@ Section Build.
     let k := (dirkey dir_names o, m) in
     let ifs := st_ifaces acc in
     let recheck :=
-      let r := analyze s ifs ro in
-      {| st_cache := store (st_cache acc) k {| e_src := s; e_deps := ifs; e_snap := snap; e_res := r |};
+      let r := analyze s ifs ro (imp o s) in
+      {| st_cache := store (st_cache acc) k {| e_src := s; e_deps := ifs; e_snap := snap; e_imp := imp o s; e_res := r |};
          st_ifaces := ifs ++ [fst r]; st_out := st_out acc ++ [(m, snd r)]; st_n := S (st_n acc) |} in
     match lookup (st_cache acc) k with
     | Some e =>
@@ -132,7 +140,7 @@ Section Build.
   (* the cache-free specification *)
   Definition pure_step (o : opts) (acc : list iface * list (modid * list etuple)) (ms : modid * src) :=
     let '(m, s) := ms in
-    let r := analyze s (fst acc) (resolve o m) in
+    let r := analyze s (fst acc) (resolve o m) (imp o s) in
     (fst acc ++ [fst r], snd acc ++ [(m, snd r)]).
   Definition pure_run (fs : list (modid * src)) (o : opts) := fold_left (pure_step o) fs ([], []).
 End Build.
@@ -141,6 +149,7 @@ Arguments e_src {src iface etuple}.
 Arguments e_deps {src iface etuple}.
 Arguments e_snap {src iface etuple}.
 Arguments e_res {src iface etuple}.
+Arguments e_imp {src iface etuple}.
 Arguments st_cache {src iface etuple modid}.
 Arguments st_ifaces {src iface etuple modid}.
 Arguments st_out {src iface etuple modid}.
@@ -154,9 +163,9 @@ Definition predict_reuse (key_np dir_names : list name) (o1 ro1 o2 ro2 : opts) :
 
 (* ---- a concrete instance used for the refutation witness: one module whose only diagnostic is the value of
    option `probe` *)
-Definition probe_analyze (probe : name) (_ : unit) (_ : list unit) (o : opts) : unit * list string := (tt, [get o probe]).
+Definition probe_analyze (probe : name) (_ : unit) (_ : list unit) (o : opts) (_ : list value) : unit * list string := (tt, [get o probe]).
 Definition probe_run (key_np : list name) (probe : name) (c : cache unit unit string nat) (o : opts) :=
   run unit unit string nat Nat.eqb (fun _ _ => true) (fun _ _ => true) (fun o _ => o) (probe_analyze probe)
-      key_np ["cache_dir"; "python_version"] c [(0, tt)] o.
+      key_np ["cache_dir"; "python_version"] (fun _ _ => []) c [(0, tt)] o.
 Definition probe_output (r : st unit unit string nat) : list string :=
   output unit unit string nat (fun _ ts => ts) [] r.
